@@ -225,125 +225,5 @@ theorem search_sound {lbs : Nat} {items : List DictItem} {data : ByteArray} {cm 
     · exact dictLoop_sound lbs items data cm maxLength maxBackward maxDistance items (fun d hd => hd)
         false out c f' o' c' h (fun hh => (by cases hh))
 
-/-! ### AdvHasher / H9 loops -/
-
-/-- loop invariant: whatever has been found so far is a sound copy -/
-def Adv.Inv (data : ByteArray) (mask cm curIx maxLength maxBackward : Nat) (s : Adv.LoopSt) : Prop :=
-  s.out.lenXCode = 0 ∧ (s.found = true → CopyOK data mask cm curIx maxLength maxBackward s.out)
-
-theorem i32ToUsize_lt (x : Int) : i32ToUsize x < U64 := by
-  unfold i32ToUsize BV.Recoder.toUsize
-  have h : (0 : Int) < 2 ^ 64 := by decide
-  have h2 := Int.emod_lt_of_pos x h
-  have h1 := Int.emod_nonneg x (Int.ne_of_gt h)
-  have e : ((x % 2 ^ 64).toNat : Int) = x % 2 ^ 64 := Int.toNat_of_nonneg h1
-  have hU : ((U64 : Nat) : Int) = 2 ^ 64 := by decide
-  have : ((x % 2 ^ 64).toNat : Int) < (U64 : Nat) := by rw [e, hU]; exact h2
-  exact Int.ofNat_lt.mp this
-
-/-- a candidate taken from a distance `backward` with `cur - backward < cur` -/
-theorem copyOK_of_backward {data : ByteArray} {m cm curIx maxLength maxBackward backward len : Nat}
-    (hc : curIx < U64) (hb : backward < U64) (hlt : wsub curIx backward < curIx)
-    (hmb : backward ≤ maxBackward) (hlen : len ≤ maxLength)
-    (hag : Agree data (wsub curIx backward &&& m) cm len) (o : SR) (score : Nat) (hx : o.lenXCode = 0) :
-    CopyOK data m cm curIx maxLength maxBackward { o with len := len, distance := backward, score := score } :=
-  ⟨wsub_pos_of_lt hc hlt, hmb, hlen, hx, wsub curIx backward, (wsub_wsub hc hb).symm, hag⟩
-
-/-- a candidate taken from a table entry `prev` -/
-theorem copyOK_of_prev {data : ByteArray} {m cm curIx maxLength maxBackward prev len : Nat}
-    (h0 : wsub curIx prev ≠ 0) (hmb : ¬ wsub curIx prev > maxBackward) (hlen : len ≤ maxLength)
-    (hag : Agree data (prev &&& m) cm len) (o : SR) (score : Nat) (hx : o.lenXCode = 0) :
-    CopyOK data m cm curIx maxLength maxBackward { o with len := len, distance := wsub curIx prev, score := score } :=
-  ⟨Nat.pos_of_ne_zero h0, Nat.le_of_not_gt hmb, hlen, hx, prev, rfl, hag⟩
-
-theorem Adv.cacheAccept_inv {lbs i len backward : Nat} {data : ByteArray}
-    {mask cm curIx maxLength maxBackward : Nat} {s : Adv.LoopSt}
-    (hI : Adv.Inv data mask cm curIx maxLength maxBackward s)
-    (hco : ∀ score, CopyOK data mask cm curIx maxLength maxBackward
-      { s.out with len := len, distance := backward, score := score }) :
-    Adv.Inv data mask cm curIx maxLength maxBackward (Adv.cacheAccept lbs i len backward s) := by
-  unfold Adv.cacheAccept
-  dsimp only
-  split
-  · split
-    · split
-      · split
-        · exact ⟨hI.1, fun _ => hco _⟩
-        · exact hI
-      · exact ⟨hI.1, fun _ => hco _⟩
-    · exact hI
-  · exact hI
-
-theorem Adv.bucketAccept_inv {lbs len backward : Nat} {data : ByteArray}
-    {mask cm curIx maxLength maxBackward : Nat} {s : Adv.LoopSt}
-    (hI : Adv.Inv data mask cm curIx maxLength maxBackward s)
-    (hco : ∀ score, CopyOK data mask cm curIx maxLength maxBackward
-      { s.out with len := len, distance := backward, score := score }) :
-    Adv.Inv data mask cm curIx maxLength maxBackward (Adv.bucketAccept lbs len backward s) := by
-  unfold Adv.bucketAccept
-  split
-  · dsimp only
-    split
-    · exact ⟨hI.1, fun _ => hco _⟩
-    · exact hI
-  · exact hI
-
-theorem H9.cacheAccept_inv {lbs i len backward : Nat} {data : ByteArray}
-    {mask cm curIx maxLength maxBackward : Nat} {s : Adv.LoopSt}
-    (hI : Adv.Inv data mask cm curIx maxLength maxBackward s)
-    (hco : ∀ score, CopyOK data mask cm curIx maxLength maxBackward
-      { s.out with len := len, distance := backward, score := score }) :
-    Adv.Inv data mask cm curIx maxLength maxBackward (H9.cacheAccept lbs i len backward s) := by
-  unfold H9.cacheAccept
-  split
-  · dsimp only
-    split
-    · exact ⟨hI.1, fun _ => hco _⟩
-    · exact hI
-  · exact hI
-
-theorem Adv.bucketLoop_inv {lbs : Nat} {data : ByteArray} {mask curIx cm maxLength maxBackward blockMask : Nat}
-    (bucket : Nat → Option Nat) : ∀ (cnt i : Nat) (s s' : Adv.LoopSt),
-    Adv.Inv data mask cm curIx maxLength maxBackward s →
-    Adv.bucketLoop lbs data mask curIx cm maxLength maxBackward blockMask bucket cnt i s = some s' →
-    Adv.Inv data mask cm curIx maxLength maxBackward s' := by
-  intro cnt
-  induction cnt with
-  | zero => intro i s s' hI h; simp only [Adv.bucketLoop, Option.some.injEq] at h; subst h; exact hI
-  | succ cnt ih =>
-    intro i s s' hI h
-    rw [Adv.bucketLoop] at h
-    dsimp only at h
-    cases hb : bucket ((i - 1) &&& blockMask) with
-    | none => rw [hb] at h; cases h
-    | some prev =>
-      rw [hb] at h
-      dsimp only at h
-      split at h
-      · exact ih _ _ _ hI h
-      · rename_i h0
-        cases hg : Adv.guard data mask cm (prev &&& mask) s.bestLen with
-        | none => rw [hg] at h; cases h
-        | some g =>
-          rw [hg] at h
-          cases g with
-          | true =>
-            dsimp only at h
-            split at h
-            · injection h with h; subst h; exact hI
-            · exact ih _ _ _ hI h
-          | false =>
-            dsimp only at h
-            split at h
-            · injection h with h; subst h; exact hI
-            · rename_i hmb
-              cases hf : findMatchLengthWithLimitMin4 data (prev &&& mask) cm maxLength with
-              | none => rw [hf] at h; cases h
-              | some len =>
-                rw [hf] at h
-                dsimp only at h
-                obtain ⟨hlen, hag⟩ := min4_sound hf
-                exact ih _ _ _ (Adv.bucketAccept_inv hI (fun score =>
-                  copyOK_of_prev h0 hmb hlen hag s.out score hI.1)) h
 
 end BV.MatchFinder
